@@ -107,6 +107,18 @@ def compare(ck, prog, text, preds, real, model, key_of, extra=None):
       continue
     got = canon_real_rows(r, p)
     if got != exp_rows:
+      # documented: aggregating nothing gives null; SQLite's JSON_GROUP_ARRAY gives [] (known finding)
+      def empties_to_null(rows):
+        out = []
+        for x in rows:
+          d = json.loads(x)
+          out.append(json.dumps({k: (None if v == [] else v) for k, v in d.items()}, sort_keys=True))
+        return sorted(out)
+      if empties_to_null(got) == empties_to_null(exp_rows):
+        ck.violation('list-aggregating-nothing-gives-empty-list',
+                     'predicate %s: List over no solutions returns [] instead of null' % p.name, rp)
+        n_bad += 1
+        continue
       rp['got_rows'] = got[:50]
       ck.violation(key_of(p, 'rows'), 'predicate %s: SQLite returns %d rows %s..., the denotation has %d rows %s...' % (
           p.name, len(got), got[:3], len(exp_rows), exp_rows[:3]), rp)
